@@ -15,21 +15,25 @@
    abstract coordinate (an integer; the driver decides how many decimals it stands for and in
    which notation it is written).  Arc flags are numbers 0/1. *)
 EXTENDS SvgPath, Json
-CONSTANTS MaxTok, Coords, Radii, Rots, ExclZ, ExclDeg, ExclZeroL
-VARIABLES toks, cmd, k, g, vals, st, fl
-vars == <<toks, cmd, k, g, vals, st, fl>>
+CONSTANTS MaxTok, MaxGroups, Coords, Radii, Rots, Letters, Modes, ExclZ, ExclDeg, ExclZeroL
+VARIABLES toks, cmd, k, g, ng, vals, st, fl, mode
+vars == <<toks, cmd, k, g, ng, vals, st, fl, mode>>
 
 \* fl: what the exclusions need to know about the previous group
 \*   dc/dq  it was an exactly degenerate cubic / quadratic
 Fl0 == [dc |-> FALSE, dq |-> FALSE]
 
-Init == toks = <<>> /\ cmd = 0 /\ k = 0 /\ g = 0 /\ vals = <<>> /\ st = S0 /\ fl = Fl0
+Init == toks = <<>> /\ cmd = 0 /\ k = 0 /\ g = 0 /\ ng = 0 /\ vals = <<>> /\ st = S0 /\ fl = Fl0 /\ mode = "free"
 
 AtBoundary == cmd = 0 \/ Arity(cmd) = 0 \/ (k = 0 /\ g > 0)
 Accepting2 == cmd # 0 /\ (Arity(cmd) = 0 \/ (k = 0 /\ g > 0))
 
 SmoothC(c) == c \in {83, 115}
 SmoothQ(c) == c \in {84, 116}
+(* Exclusions are as narrow as the pinned defects: an EXPLICIT smooth command (or the implicit
+   repetition of one) after a degenerate curve.  A degenerate curve followed by a full C / Q whose
+   first control point is the mirror image of the degenerate curve's last one - where the
+   shortener itself has to decide about S / T - is generated (mode "mirror" below). *)
 Allowed(c) ==
   /\ cmd = 0 => c \in {77, 109}
   /\ (ExclZ /\ IsClose(cmd)) => c \in {77, 109, 90, 122}
@@ -43,31 +47,84 @@ ZeroAfterCurve(old, letter, seg) ==
   /\ old.pk # "N" /\ ZeroLine(Simplify(seg))
   /\ letter \in {76, 108, 67, 99, 83, 115, 81, 113, 84, 116}
 
-Letter(c) ==
-  /\ AtBoundary /\ Allowed(c)
-  /\ toks' = Append(toks, c) /\ cmd' = c /\ k' = 0 /\ g' = 0 /\ vals' = <<>>
+(* Modes: the rewrites of a path shortener fire on COINCIDENCES (a control point that is the mirror
+   image of the previous one, that lies on an end point, ...), which uniformly chosen coordinates
+   rarely produce.  A curve command may therefore be generated from a template that forces some
+   of its numbers:
+     mirror   first control point = what a smooth command would reflect here (C, Q)
+     degSS degSE degES degEE   cubic whose control points lie on its Start / End point
+     degS degE                 S: second control point, Q: control point on the Start / End point *)
+ModesOf(c) ==
+  LET u == IF IsRel(c) THEN c - 32 ELSE c IN
+  CASE u = 67 -> {"free", "mirror", "degSS", "degSE", "degES", "degEE"}
+    [] u = 83 -> {"free", "degS", "degE"}
+    [] u = 81 -> {"free", "mirror", "degS", "degE"}
+    [] OTHER -> {"free"}
+ModesAll == {"free", "mirror", "degSS", "degSE", "degES", "degEE", "degS", "degE"}
+ModesFree == {"free"}
+ModesForced == ModesAll \ {"free"}
+ModeAllowed(c, md) == md \in ModesOf(c) /\ (md \in Modes \/ ModesOf(c) = {"free"})
+
+GReflC == IF st.pk = "C" THEN <<2 * st.x - st.px, 2 * st.y - st.py>> ELSE <<st.x, st.y>>
+GReflQ == IF st.pk = "Q" THEN <<2 * st.x - st.px, 2 * st.y - st.py>> ELSE <<st.x, st.y>>
+\* token value that puts an x (y) coordinate on the absolute value t
+TokX(t) == IF IsRel(cmd) THEN t - st.x ELSE t
+TokY(t) == IF IsRel(cmd) THEN t - st.y ELSE t
+None == <<>>
+\* the forced value of argument j of the current group (None: free choice)
+Forced(j) ==
+  LET u == IF IsRel(cmd) THEN cmd - 32 ELSE cmd IN
+  CASE u = 67 /\ mode = "mirror" /\ j = 1 -> <<TokX(GReflC[1])>>
+    [] u = 67 /\ mode = "mirror" /\ j = 2 -> <<TokY(GReflC[2])>>
+    [] u = 67 /\ mode \in {"degSS", "degSE"} /\ j = 1 -> <<TokX(st.x)>>
+    [] u = 67 /\ mode \in {"degSS", "degSE"} /\ j = 2 -> <<TokY(st.y)>>
+    [] u = 67 /\ mode \in {"degSS", "degES"} /\ j = 3 -> <<TokX(st.x)>>
+    [] u = 67 /\ mode \in {"degSS", "degES"} /\ j = 4 -> <<TokY(st.y)>>
+    [] u = 67 /\ mode = "degEE" /\ j \in {3, 5} -> <<vals[1]>>
+    [] u = 67 /\ mode = "degEE" /\ j = 4 -> <<vals[2]>>
+    [] u = 67 /\ mode = "degEE" /\ j = 6 -> <<vals[2]>>
+    [] u = 67 /\ mode = "degES" /\ j = 5 -> <<vals[1]>>
+    [] u = 67 /\ mode = "degES" /\ j = 6 -> <<vals[2]>>
+    [] u = 67 /\ mode = "degSE" /\ j = 5 -> <<vals[3]>>
+    [] u = 67 /\ mode = "degSE" /\ j = 6 -> <<vals[4]>>
+    [] u = 83 /\ mode = "degS" /\ j = 1 -> <<TokX(st.x)>>
+    [] u = 83 /\ mode = "degS" /\ j = 2 -> <<TokY(st.y)>>
+    [] u = 83 /\ mode = "degE" /\ j = 3 -> <<vals[1]>>
+    [] u = 83 /\ mode = "degE" /\ j = 4 -> <<vals[2]>>
+    [] u = 81 /\ mode = "mirror" /\ j = 1 -> <<TokX(GReflQ[1])>>
+    [] u = 81 /\ mode = "mirror" /\ j = 2 -> <<TokY(GReflQ[2])>>
+    [] u = 81 /\ mode = "degS" /\ j = 1 -> <<TokX(st.x)>>
+    [] u = 81 /\ mode = "degS" /\ j = 2 -> <<TokY(st.y)>>
+    [] u = 81 /\ mode = "degE" /\ j = 3 -> <<vals[1]>>
+    [] u = 81 /\ mode = "degE" /\ j = 4 -> <<vals[2]>>
+    [] OTHER -> None
+
+Letter(c, md) ==
+  /\ AtBoundary /\ Allowed(c) /\ c \in Letters /\ ModeAllowed(c, md) /\ ng < MaxGroups
+  /\ toks' = Append(toks, c) /\ cmd' = c /\ k' = 0 /\ g' = 0 /\ vals' = <<>> /\ mode' = md
   /\ IF IsClose(c) THEN /\ st' = StepGroup(st, c, <<>>).st
-                        /\ fl' = Fl0
-     ELSE UNCHANGED <<st, fl>>
+                        /\ fl' = Fl0 /\ ng' = ng + 1
+     ELSE UNCHANGED <<st, fl, ng>>
 
 ArgDomain(c, j) == IF IsArc(c) THEN (CASE j \in {1, 2} -> Radii [] j = 3 -> Rots [] j \in {4, 5} -> {0, 1} [] OTHER -> Coords)
                    ELSE Coords
+ArgChoices == IF cmd = 0 \/ Arity(cmd) = 0 THEN {}
+              ELSE IF Forced(k + 1) # None THEN {Forced(k + 1)[1]} ELSE ArgDomain(cmd, k + 1)
 
 Number(v) ==
   /\ cmd # 0 /\ Arity(cmd) > 0
-  /\ (k = 0 /\ g > 0) => Allowed(GroupLetter(cmd, g + 1))      \* implicit repetition starts a new group
-  /\ v \in ArgDomain(cmd, k + 1)
+  /\ (k = 0 /\ g > 0) => (Allowed(GroupLetter(cmd, g + 1)) /\ ng < MaxGroups)   \* implicit repetition starts a new group
   /\ toks' = Append(toks, 1000000 + v)
-  /\ cmd' = cmd
+  /\ cmd' = cmd /\ mode' = mode
   /\ IF k + 1 = Arity(cmd)
      THEN LET r == StepGroup(st, GroupLetter(cmd, g + 1), Append(vals, v)) IN
           /\ ExclZeroL => ~ZeroAfterCurve(st, GroupLetter(cmd, g + 1), r.seg)
-          /\ st' = r.st /\ fl' = FlagsAfter(st, r.seg) /\ k' = 0 /\ g' = g + 1 /\ vals' = <<>>
-     ELSE /\ k' = k + 1 /\ vals' = Append(vals, v) /\ UNCHANGED <<st, g, fl>>
+          /\ st' = r.st /\ fl' = FlagsAfter(st, r.seg) /\ k' = 0 /\ g' = g + 1 /\ ng' = ng + 1 /\ vals' = <<>>
+     ELSE /\ k' = k + 1 /\ vals' = Append(vals, v) /\ UNCHANGED <<st, g, ng, fl>>
 
 Next == /\ Len(toks) < MaxTok
-        /\ \/ \E c \in CmdBytes : Letter(c)
-           \/ \E v \in Coords \cup Radii \cup Rots \cup {0, 1} : Number(v)
+        /\ \/ \E c \in CmdBytes : \E md \in ModesAll : Letter(c, md)
+           \/ \E v \in ArgChoices : Number(v)
 Spec == Init /\ [][Next]_vars
 
 ---------------------------------------------------------------------------
@@ -96,6 +153,9 @@ Incremental == Accepting2 => st = InterpAbs(CmdsOf(toks))
 Emit == Len(toks) = MaxTok => PrintT(ToJson(toks))
 EmitAcc == Accepting2 => PrintT(ToJson(toks))
 
+LettersAll == CmdBytes
+LettersCurvePairs == {77, 67, 99, 83, 115, 81, 113, 84, 116, 76}    \* M C c S s Q q T t L
+CoordsTiny == {0, 1}
 CoordsSmall == {-1, 0, 1, 2}
 RadiiSmall == {0, 1, 2}
 RotsSmall == {0, 1}
